@@ -124,6 +124,9 @@ class TableOracle:
             for exch in (35, 36, 37):
                 for flags in (0x00, 0x08, 0x20, 0x28):
                     probes.append(rnd + rnd[::-1] + bytes([0, 0x20, exch, flags]) + struct.pack('>LL', 0, 28))
+            # IKE_SA_INIT requests the responder ignores (no initiator flag / Message ID other than 0): F20
+            probes.append(rnd + bytes(8) + bytes([0, 0x20, 34, 0x00]) + struct.pack('>LL', 0, 28))
+            probes.append(rnd + bytes(8) + bytes([0, 0x20, 34, 0x08]) + struct.pack('>LL', 1 + self.rng.randrange(7), 28))
             if sa is not None:
                 mine, theirs = bytes(sa.my_spi), bytes(sa.peer_spi).ljust(8, b'\0')[:8]
                 # local SPI placed in the wrong header field for the claimed role
